@@ -351,6 +351,23 @@ def part_b(chk, full_bits):
         check_conv_array(chk, fa[i:i + 4096].astype(np.uint64), "uint64_array")
         chk.nontriv(("few", i))
     check_conv_array(chk, fa[:1024].reshape(32, 32), "int64_array_2d")
+    # memory layouts and integer widths: Fortran order, transposed / strided / reversed views,
+    # read-only arrays, every integer dtype wide enough for the values
+    sq = fa[:1024].reshape(32, 32)
+    check_conv_array(chk, np.asfortranarray(sq), "int64_array_2d_fortran")
+    check_conv_array(chk, sq.T, "int64_array_2d_transposed_view")
+    check_conv_array(chk, sq[::-1, ::3], "int64_array_2d_strided_view")
+    check_conv_array(chk, fa[:1000].reshape(10, 10, 10).swapaxes(0, 2), "int64_array_3d_swapaxes")
+    ro = fa[:512].copy()
+    ro.setflags(write=False)
+    check_conv_array(chk, ro, "int64_array_readonly")
+    check_conv_array(chk, np.arange(0, 127, dtype=np.int8), "int8_array")
+    check_conv_array(chk, np.arange(0, 255, dtype=np.uint8), "uint8_array")
+    check_conv_array(chk, np.arange(0, 2 ** 15 - 1, dtype=np.int16), "int16_array")
+    check_conv_array(chk, np.arange(0, 2 ** 16 - 1, dtype=np.uint16), "uint16_array")
+    small32 = np.array([n for n in few if n < 2 ** 31 - 1], dtype=np.int32)
+    check_conv_array(chk, small32, "int32_array")
+    check_conv_array(chk, np.array([n for n in few if n < 2 ** 32 - 1], dtype=np.uint32), "uint32_array")
     # scalars: all ints with <= 2 set bits (+-1) as Python int and numpy scalar
     two = [n for n in few if popcount(n) <= 2 or popcount(n + 1) <= 2 or (n and popcount(n - 1) <= 2)]
     step = 1 if chk.tier == "thorough" else 3
@@ -370,6 +387,18 @@ def part_b(chk, full_bits):
     check_biterrors(chk, A, B, "int64_2d")
     check_biterrors(chk, A.reshape(2, 3, m // 6), B.reshape(2, 3, m // 6), "int64_3d")
     check_biterrors(chk, A.astype(np.uint64), B.astype(np.uint64), "uint64_2d")
+    check_biterrors(chk, np.asfortranarray(A), B, "int64_2d_fortran_vs_c")
+    check_biterrors(chk, A.T, B.T, "int64_2d_transposed_views")
+    check_biterrors(chk, A[:, ::-2], B[:, ::-2], "int64_2d_strided_views")
+    check_biterrors(chk, A.reshape(2, 3, m // 6).swapaxes(0, 1), B.reshape(2, 3, m // 6).swapaxes(0, 1),
+                    "int64_3d_swapaxes")
+    lo = v2[v2 < 2 ** 31 - 1]
+    check_biterrors(chk, lo.astype(np.int32), lo[::-1].astype(np.int32), "int32_1d")
+    check_biterrors(chk, lo.astype(np.uint32), lo[::-1].astype(np.uint32), "uint32_1d")
+    lo8 = v2[v2 < 127]
+    check_biterrors(chk, lo8.astype(np.int8), lo8[::-1].astype(np.int8), "int8_1d")
+    check_biterrors(chk, lo8.astype(np.uint8), lo8[::-1].astype(np.uint8), "uint8_1d")
+    check_biterrors(chk, np.zeros((0,), dtype=np.int64), np.zeros((0,), dtype=np.int64), "empty_1d")
     from pyphysim.util import misc
     case = {"part": "B", "what": "count_bit_errors", "form": "pyint_scalars"}
     with chk.guard(("count_bit_errors", "pyint"), case):
@@ -416,5 +445,6 @@ def replay(case, chk: Check):
         if form in ("pyint", "np_int64_scalar"):
             check_conv_scalar(chk, n, form)
         else:
-            dt = np.uint64 if form.startswith("uint64") else np.int64
+            dt = np.dtype(form.split("_")[0]) if form.split("_")[0] in (
+                "int8", "uint8", "int16", "uint16", "int32", "uint32", "int64", "uint64") else np.int64
             check_conv_array(chk, np.array([n], dtype=dt), form)
